@@ -17,6 +17,20 @@
 (*                  of the call                                            *)
 (*   ModSharedPath  ModifyInstance puts ONE object into every namespace's  *)
 (*                  store; its path names the namespace of the call        *)
+(*   NoPreCheck     a CreateInstance that is rejected with ALREADY_EXISTS  *)
+(*                  has by then stored the copies of the other namespaces  *)
+(*   SubCacheNs     (AssocImplOps) subclass lists of one namespace used    *)
+(*                  for all                                                *)
+(*                                                                         *)
+(* FAILED write operations are part of the histories: Reject = a           *)
+(* CreateInstance whose path collides with a stored instance in one of the *)
+(* namespaces it would be stored in (same keys again; for AL - keyed by    *)
+(* id, references not keys - the id of a stored instance with ANY ends, in *)
+(* particular ends in another namespace than the stored one's).  The       *)
+(* repository after a rejected CreateInstance must give the same traversal *)
+(* results as before it (ImplEqualsDecl over the unchanged store).         *)
+(* Class hierarchy as state: xpar[ns] = superclass of ABX in ns ("" = no   *)
+(* such class); AddClass changes it between traversals.                    *)
 (***************************************************************************)
 EXTENDS AssocImplOps, SequencesExt
 
@@ -27,6 +41,9 @@ CONSTANTS NodeU,       \* sequence of node records [ns, cls, sv, kid]
           ClsU,        \* association classes that are instantiated
           AcU, RcU, RlU,  \* filter tokens quantified over ("" = not given)
           NoShadow, ModSharedPath,
+          NoPreCheck,  \* regression switch, see Reject
+          XParU,       \* superclasses ABX may be given by AddClass ({} = the
+                       \* class is never added)
           GenDepth     \* > 0: record the calls (behaviour emission)
 
 (*------------------- universes used by the configurations ----------------*)
@@ -46,12 +63,15 @@ RlFull == {"", "r1", "r2", "a", "b", "c", "zz"}
 AcSmall == {"", "AB", "ABS", "ABSS", "AT", "AL", "ZZ"}
 RcSmall == {"", "N", "NS", "NSS", "M"}
 RlSmall == {"", "r1", "r2", "a", "b", "c"}
+AcHier == {"", "AB", "ABS", "ABSS", "ABX", "ZZ"}
+RlHier == {"", "r1", "r2"}
+SubCacheOne == 1
 
-VARIABLES store, hist
-vars == <<store, hist>>
+VARIABLES store, hist, xpar
+vars == <<store, hist, xpar>>
 
 Nodes == DOMAIN NodeU
-G == [nodes |-> NodeU, assocs |-> SetToSeq(store)]
+G == [nodes |-> NodeU, assocs |-> SetToSeq(store), xpar |-> xpar]
 Groups == {a.g : a \in store}
 NMod == Cardinality({a.g : a \in {b \in store : b.w # 0}})
 
@@ -66,17 +86,67 @@ EndTuples(c) ==
 
 Rec(op, c, ends, ns) == [op |-> op, cls |-> c, ends |-> ends, ns |-> ns]
 
+EndNs(ends) == {NodeU[ends[p]].ns : p \in {q \in DOMAIN ends : ends[q] # 0}}
+Copy(c, ends, h, g) == [cls |-> c, ends |-> ends, ns |-> h, g |-> g, w |-> 0,
+                        pns |-> h, xp |-> IF c = "ABX" THEN xpar[h] ELSE ""]
 Create(c, ends, ns) ==
   LET g == <<c, ends>>       \* class + keybindings (for AL: stands for id)
-      homes == IF NoShadow THEN {ns}
-               ELSE {ns} \cup {NodeU[ends[p]].ns :
-                                  p \in {q \in DOMAIN ends : ends[q] # 0}} IN
+      homes == IF NoShadow THEN {ns} ELSE {ns} \cup EndNs(ends) IN
   /\ Cardinality(Groups) < MaxAssoc
   /\ g \notin Groups                                  \* else ALREADY_EXISTS
-  /\ store' = store \cup {[cls |-> c, ends |-> ends, ns |-> h, g |-> g,
-                            w |-> 0, pns |-> h] : h \in homes}
+  /\ c = "ABX" => xpar[ns] # "" /\ EndNs(ends) = {ns}  \* one namespace
+  /\ store' = store \cup {Copy(c, ends, h, g) : h \in homes}
   /\ hist' = IF GenDepth > 0 THEN Append(hist, Rec("create", c, ends, ns))
              ELSE hist
+  /\ UNCHANGED xpar
+
+(* CreateInstance(c, ends) in namespace ns whose path is the path of the    *)
+(* stored instance g0 (same class; same ends = same keys, or - AL - the    *)
+(* same id with any ends) in one of the namespaces it would be stored in:  *)
+(* CIM_ERR_ALREADY_EXISTS, nothing stored (create_multi_namespace_instance *)
+(* checks all namespaces BEFORE it stores the first copy).                 *)
+(* NoPreCheck: the copies are stored one by one, the namespace of the call *)
+(* last, each store refusing a duplicate (two namespaces: a copy stays in  *)
+(* the other namespace when only the namespace of the call collides).      *)
+(* Case distinction of a rejected create (the binding covers every case):  *)
+(*   "single"        only the namespace of the call is involved            *)
+(*   "all"           every involved namespace holds a copy of g0           *)
+(*   "partial-call"  the namespace of the call holds one, another involved *)
+(*                   namespace does not (id collision of an AL instance    *)
+(*                   whose new ends reach into another namespace)          *)
+(*   "partial-other" only another involved namespace holds one             *)
+RejCase(homes, ns, g0) ==
+  LET has(h) == \E a \in store : a.g = g0 /\ a.ns = h IN
+  IF homes = {ns} THEN "single"
+  ELSE IF \A h \in homes : has(h) THEN "all"
+  ELSE IF has(ns) THEN "partial-call" ELSE "partial-other"
+Reject(c, ends, ns, g0) ==
+  LET homes == {ns} \cup EndNs(ends)
+      has(h) == \E a \in store : a.g = g0 /\ a.ns = h
+      others == homes \ {ns} IN
+  /\ g0 \in Groups /\ g0[1] = c /\ c # "ABX"
+  /\ c = "AL" \/ ends = g0[2]
+  /\ \E h \in homes : has(h)
+  /\ store' = IF NoPreCheck /\ others # {}
+              THEN store \cup {Copy(c, ends, h, g0) :
+                                 h \in {o \in others : ~has(o)}}
+              ELSE store
+  /\ hist' = IF GenDepth > 0
+             THEN Append(hist, [op |-> "reject", cls |-> c, ends |-> ends,
+                                ns |-> ns, of |-> g0[2],
+                                case |-> RejCase(homes, ns, g0)])
+             ELSE hist
+  /\ UNCHANGED xpar
+
+(* CreateClass / add_cimobjects of ABX as subclass of p in namespace ns    *)
+AddClass(ns, p) ==
+  /\ xpar[ns] = ""
+  /\ xpar' = [xpar EXCEPT ![ns] = p]
+  /\ hist' = IF GenDepth > 0
+             THEN Append(hist, [op |-> "addclass", cls |-> "ABX", ends |-> <<>>,
+                                ns |-> ns, parent |-> p])
+             ELSE hist
+  /\ UNCHANGED store
 
 (* ModifyInstance(note := 1) addressed to the copy of g in namespace ns *)
 Modify(g, ns) ==
@@ -88,13 +158,17 @@ Modify(g, ns) ==
                ELSE a : a \in store}
   /\ hist' = IF GenDepth > 0 THEN Append(hist, Rec("modify", g[1], g[2], ns))
              ELSE hist
+  /\ UNCHANGED xpar
 
-Init == /\ store = {}
+Init == /\ store = {} /\ xpar = <<"", "">>
         /\ hist = IF GenDepth > 0 THEN <<[op |-> "nodes", nodes |-> NodeU]>>
                   ELSE <<>>
 Next == \/ \E c \in ClsU, ns \in CreateNs : \E ends \in EndTuples(c) :
             Create(c, ends, ns)
         \/ \E a \in store : Modify(a.g, a.ns)
+        \/ \E a \in store, ns \in CreateNs : \E ends \in EndTuples(a.cls) :
+              Reject(a.cls, ends, ns, a.g)
+        \/ \E ns \in CreateNs, p \in XParU : AddClass(ns, p)
 Spec == Init /\ [][Next]_vars
 
 (*----------------------- Impl = declarative ------------------------------*)
@@ -103,7 +177,7 @@ AssocAgree(g, near, op, x, ac, rc, ro, rr) ==
   LET r == ImplAssocOp(op, g, x, ac, rc, ro, rr) IN
   IF r.k = "ok"
   THEN r.S \ {x} = AssocsVia(g, near, x, ac, rc, ro, rr) \ {x}
-  ELSE r.k = "err4" /\ AqMayErr(ac, rc, ro, rr)
+  ELSE r.k = "err4" /\ (AqMayErr(ac, rc, ro, rr) \/ XAbsent(g, x, ac))
 
 RefAgreeOn(g, near, x, rc, ro, refs) ==
   \A op \in {"AN", "A"} :
@@ -111,7 +185,7 @@ RefAgreeOn(g, near, x, rc, ro, refs) ==
      IF r.k = "ok"
      THEN /\ 0 \notin r.S
           /\ {g.assocs[j].g : j \in r.S} = RefsVia(near, x, rc, ro)
-     ELSE r.k = "err4" /\ RqMayErr(rc, ro)
+     ELSE r.k = "err4" /\ (RqMayErr(rc, ro) \/ XAbsent(g, x, rc))
 RefAgree(g, near, x, rc, ro) ==
   RefAgreeOn(g, near, x, rc, ro, ImplRefPaths(g, x, rc, ro))
 
@@ -134,12 +208,13 @@ ImplEqualsDecl ==
      /\ IF SwapIn = ""
         THEN \A ac \in AcU, ro \in RlU :
                LET refs == ImplRefPaths(g, x, ac, ro)
-                   nearac == {b \in near : ClassOk(b.cls, ac)} IN
+                   nearac == {b \in near : CopyClassOk(b, ac)} IN
                /\ PathsInStore(g, x, refs)
                /\ RefAgreeOn(g, near, x, ac, ro, refs)   \* ResultClass = ac
                /\ \/ refs = {} /\ nearac = {} /\ store # {}
                   \/ \A rc \in RcU, rr \in RlU :
-                       IF BadFilterClass(ac, rc) THEN AqMayErr(ac, rc, ro, rr)
+                       IF BadFilterClassAt(g, x, ac, rc)
+                       THEN AqMayErr(ac, rc, ro, rr) \/ XAbsent(g, x, ac)
                        ELSE ImplPhase2(g, x, rc, rr, refs) \ {x}
                               = AssocsVia(g, nearac, x, "", rc, ro, rr) \ {x}
         ELSE \A ac \in AcU, rc \in RcU, ro \in RlU, rr \in RlU, op \in OpsU :
